@@ -9,6 +9,11 @@ CONSTANTS
   Uris = {}
   Want <- WantAll
   CapOff = {}
+  CapMode <- ModeInferred
+  InitSize <- Size3
+  MaxSize = 3
+  Dirs = {"mod"}
+  SendGate = "configured"
   TTLPos = FALSE
   D = 2
   MaxTime = 6
@@ -19,6 +24,7 @@ CONSTANTS
   ListenOwns = TRUE
   ResubRace = TRUE
   GenCheck = TRUE
+  ColdBump = TRUE
   ModernUnsub = FALSE
   ForeignUnsub = FALSE
   Listeners = {}
@@ -31,6 +37,7 @@ CONSTANTS
   MinSteps = 1
   MaxSteps = 7
   Bias = FALSE
+  Script <- ScriptNone
   GenOps = {"change", "tchange", "updated", "connect", "close", "subscribe", "unsubscribe", "list", "tick", "hold", "release"}
 INVARIANTS Export NeverLost OnlyEntitled NoneWhenDisabled UpdatedExactlySubscribers Fresh ForgottenOnClose
 CHECK_DEADLOCK FALSE
